@@ -15,14 +15,16 @@ from .kani import ROOT, HARNESS, WORK, GEN, WIRE
 ALL_ON = tuple(WIRE)
 
 
-def configs_for(tier):
-    if tier == "quick":
-        return [(), ALL_ON]
+def all_configs():
     out = []
     for r in range(len(WIRE) + 1):
         for c in itertools.combinations(WIRE, r):
             out.append(tuple(c))
     return out
+
+
+def configs_for(tier):
+    return all_configs()
 
 
 def load_known():
@@ -91,13 +93,17 @@ def run_property(prop, tier, seed, only=None, jobs=16, keep_going=True):
             continue
         ok = [c for c in cfgs if all(r in c for r in m["requires"]) and not any(f in c for f in m["forbids"])]
         if not ok:
-            # needs a configuration outside this tier's set: add the smallest one
+            # needs a non-wire feature (arbitrary, std): the smallest configuration that has it
             ok = [tuple(sorted(m["requires"]))]
         mode = m.get("configs", "all")
         if mode in ("one", "rich"):
             ok = ok[-1:]          # the richest compatible configuration
         elif mode == "first":
             ok = ok[:1]
+        elif mode == "all8":
+            pass                  # every compatible configuration, in both tiers
+        elif mode == "all" and tier == "quick":
+            ok = [ok[0]] + ([ok[-1]] if len(ok) > 1 else [])   # quick: poorest + richest compatible
         for c in ok:
             key = (c, m.get("unwindset"))
             groups.setdefault(key, []).append(m)
